@@ -15,7 +15,7 @@ EXPLANATION = (
     "It does not run the code and does not decide payload equality."
     " (R8) last writer: the direct-read fast path parse_block_into_buf leaves the block cursor at the end of the block — after any other write of Data.pos every success path passes set_position(isize)."
     " (R9) async writer: the staged block split off the buffer in poll_flush is handed to the sink before any Poll::Pending return (a Pending after the split drops the local: payload lost, file still well-formed)."
-    " R5 also requires the Drop of the multithreaded writer to pass a call whose every success path flushes the staging buffer.")
+    " R5 also requires the Drop of the multithreaded writer to pass a call whose every success path flushes the staging buffer. (R10) raw write / poll_write in the BGZF writers only as a delegation or inside an advance loop (the EOF marker too).")
 ASSUMPTIONS = [
     "zlib-rs deflate/inflate are inverse and a stored (level 0) block costs at most 10 bytes for <= 65535 input bytes (the code comment's own statement)",
     "std::io::Write::write_all / Read::read_exact semantics",
